@@ -222,6 +222,31 @@ def suppress(files: dict[str, str], flags: list[str], target: str, key: list[Any
             if any(x[3] == msg for x in either):
                 continue   # an only_once note that re-attached elsewhere
             bad.append(f"new diagnostic appeared: {e2}")
+        # notes attached to a suppressed error go with it.  "Attached" is read off run 1's OUTPUT, not off mypy's own
+        # origin bookkeeping: the contiguous notes that directly follow an error on the same file:line and carry the
+        # error's code.  (The per-diagnostic prediction above follows ErrorInfo.origin_span, so a note that lost its
+        # origin would be predicted to stay - and would stay.)
+        info_of: dict[tuple[Any, ...], dict[str, Any]] = {}
+        for i in kept:
+            info_of.setdefault((norm(i["file"]), i["line"], i["severity"], i["message"]), i)
+        mv = [(norm(a), b, c, d) for a, b, c, d in must_vanish]
+        either_n = [(norm(a), b, c, d) for a, b, c, d in either]
+        cur: tuple[Any, ...] | None = None
+        gone_with: dict[tuple[Any, ...], int] = {}
+        for e1 in D1n:
+            if e1[2] == "error":
+                cur = e1 if (e1 in mv and D2n.count(e1) < D1n.count(e1)) else None
+                continue
+            if e1[2] != "note" or cur is None or (e1[0], e1[1]) != (cur[0], cur[1]):
+                cur = None
+                continue
+            ni, ei = info_of.get(e1), info_of.get(cur)
+            if ni is None or ei is None or ni["only_once"] or ni["code"] != ei["code"] or e1 in either_n:
+                continue
+            gone_with[e1] = gone_with.get(e1, 0) + 1
+        for e1, n_gone in gone_with.items():
+            if D2n.count(e1) > max(0, D1n.count(e1) - n_gone):
+                bad.append(f"note attached to a suppressed error survived: {e1}")
         if kind == "ignore":
             unused = [e2 for e2 in D2n if e2[0] == target and e2[1] == L and e2[3].startswith('Unused "type: ignore')]
             on_line_either = any(x[1] == L for x in either)
